@@ -143,6 +143,101 @@ theorem prepassCmd_first_error (ctx : Ctx) (c : PCmd) (a : Arg) (rest : List Arg
     prepassCmd ctx c (a :: rest) = .error (cleanErrToPErr e a.line) := by
   unfold prepassCmd; rw [hi]; simp only [he]
 
+/-! ### whole models -/
+
+/-- **the pre-pass of `Program.run` accepts a model exactly when every declared argument of every command cleans** (existence, output kind and
+fuzziness of referenced results are part of cleaning a reference: `result_ref_ok_iff`) -/
+theorem prepass_ok_iff (ctx : Ctx) : ∀ (cmds : List PCmd),
+    (∃ info, prepass ctx cmds = .ok info) ↔
+      ∀ c ∈ cmds, ∀ a ∈ c.args, ∀ i, c.decl.input? a.name = some i → ∃ w, clean ctx i.spec a.value = .ok w := by
+  intro cmds
+  induction cmds with
+  | nil => simp [prepass]
+  | cons c rest ih =>
+    unfold prepass
+    constructor
+    · rintro ⟨info, h⟩
+      split at h
+      · cases h
+      · rename_i d al hc
+        split at h
+        · cases h
+        · rename_i t ht
+          intro c' hc'
+          rcases List.mem_cons.mp hc' with rfl | hc'
+          · exact (prepassCmd_ok_iff ctx c' c'.args).mp ⟨_, hc⟩
+          · exact (ih.mp ⟨t, ht⟩) c' hc'
+    · intro h
+      obtain ⟨⟨d, al⟩, hc⟩ := (prepassCmd_ok_iff ctx c c.args).mpr (h c List.mem_cons_self)
+      obtain ⟨t, ht⟩ := ih.mpr (fun c' hc' => h c' (List.mem_cons_of_mem _ hc'))
+      rw [hc]
+      simp only [ht]
+      exact ⟨_, rfl⟩
+
+/-- **a file is loaded exactly when every command, in file order, can be added to what the commands before it built**: its name is a command of
+the selected libraries and `add_command` accepts it (`addCommand_ok_iff`: result name free, required parameters present, nothing undeclared) -/
+theorem fromNodes_ok_iff (lib : String → Option CmdDecl) : ∀ (nodes : List Node) (p : Program),
+    (∃ q, fromNodes lib p nodes = .ok q) ↔
+      ∃ ps : List Program, ps.length = nodes.length + 1 ∧ ps[0]? = some p ∧
+        ∀ k (hk : k < nodes.length), ∃ decl pk pk', lib nodes[k].command = some decl ∧ ps[k]? = some pk ∧ ps[k + 1]? = some pk' ∧
+          addCommand pk decl nodes[k].resultName (dedupArgs nodes[k].args) nodes[k].line = .ok pk' := by
+  intro nodes
+  induction nodes with
+  | nil =>
+    intro p
+    constructor
+    · intro _; exact ⟨[p], rfl, rfl, by intro k hk; cases hk⟩
+    · intro _; exact ⟨p, rfl⟩
+  | cons n rest ih =>
+    intro p
+    constructor
+    · rintro ⟨q, h⟩
+      unfold fromNodes at h
+      split at h
+      · cases h
+      · rename_i decl hl
+        split at h
+        · cases h
+        · rename_i p' hadd
+          obtain ⟨ps, hlen, h0, hstep⟩ := (ih p').mp ⟨q, h⟩
+          refine ⟨p :: ps, by simp [hlen], rfl, ?_⟩
+          intro k hk
+          cases k with
+          | zero => exact ⟨decl, p, p', hl, rfl, by simpa using h0, hadd⟩
+          | succ k =>
+            obtain ⟨d, pk, pk', h1, h2, h3, h4⟩ := hstep k (by simpa using hk)
+            exact ⟨d, pk, pk', by simpa using h1, by simpa using h2, by simpa using h3, by simpa using h4⟩
+    · rintro ⟨ps, hlen, h0, hstep⟩
+      obtain ⟨decl, pk, pk', hl, hpk, hpk', hadd⟩ := hstep 0 (by simp)
+      have hpkp : pk = p := by rw [h0] at hpk; injection hpk with hpk; exact hpk.symm
+      subst hpkp
+      unfold fromNodes
+      simp only [List.getElem_cons_zero] at hl hadd
+      rw [hl]
+      simp only [hadd]
+      apply (ih pk').mpr
+      cases ps with
+      | nil => simp at hlen
+      | cons p0 ps' =>
+        refine ⟨ps', by simpa using hlen, by simpa using hpk', ?_⟩
+        intro k hk
+        obtain ⟨d, a, b, h1, h2, h3, h4⟩ := hstep (k + 1) (by simpa using hk)
+        exact ⟨d, a, b, by simpa using h1, by simpa using h2, by simpa using h3, by simpa using h4⟩
+
+/-- **acceptance end to end**: `Program.run` gets past validation exactly when the pre-pass accepts and the reference graph has no loop; otherwise it
+returns the specific error with nothing executed -/
+theorem run_validates_first (sem : Sem Val) (p : Program) (st : St Val) :
+    (∃ e, prepass (mkCtx sem p st) p.cmds = .error e ∧ run sem p st = (st, some e)) ∨
+    (∃ info, prepass (mkCtx sem p st) p.cmds = .ok info ∧ hasCycle p (depsOf info) = true ∧ run sem p st = (st, some (.mp "RecursiveModelStructure" none))) ∨
+    (∃ info, prepass (mkCtx sem p st) p.cmds = .ok info ∧ hasCycle p (depsOf info) = false ∧ run sem p st = run.go sem p (leavesOf p info) st) := by
+  unfold run
+  cases h : prepass (mkCtx sem p st) p.cmds with
+  | error e => exact .inl ⟨e, rfl, rfl⟩
+  | ok info =>
+    cases hc : hasCycle p (depsOf info) with
+    | true => exact .inr (.inl ⟨info, rfl, hc, by simp [hc]⟩)
+    | false => exact .inr (.inr ⟨info, rfl, hc, by simp [hc]⟩)
+
 /-! ### rejection happens before anything executes -/
 
 /-- **rejected before any side effect**: whatever error the pre-pass raises, `run` returns it with the state untouched —
